@@ -216,6 +216,9 @@ func (c *LocalReusableWorkflowCache) readCache(key string) (*ReusableWorkflowMet
 }
 
 func (c *LocalReusableWorkflowCache) writeCache(key string, val *ReusableWorkflowMetadata) {
+	if c.proj == nil {
+		return // Null cache. It has no map to remember anything
+	}
 	c.mu.Lock()
 	c.cache[key] = val
 	c.mu.Unlock()
